@@ -6,6 +6,7 @@ package main
 // with the results of the same probe in a process with an empty history.
 
 import (
+	"unsafe"
 	"bytes"
 	"encoding/json"
 	"flag"
@@ -338,6 +339,7 @@ func sessionMain(args []string) int {
 		BadBySig  map[string]int    `json:"bad_by_sig"`
 		Samples   []interface{}     `json:"samples"`
 		Baseline  map[string]string `json:"baseline"`
+		Collide   int               `json:"colliding_pairs"`
 		WallS     float64           `json:"wall_s"`
 	}
 	S := sum{BadBySig: map[string]int{}, Baseline: base}
@@ -429,6 +431,31 @@ func sessionMain(args []string) int {
 		fmt.Fprintln(os.Stderr, perr)
 		return 2
 	}
+	// types with equal 32-bit hashes, in a process of their own
+	{
+		cmd := exec.Command(os.Args[0], "sessioncollide", fmt.Sprint(*seed))
+		cmd.Env = append(os.Environ(), env...)
+		var ob, eb bytes.Buffer
+		cmd.Stdout, cmd.Stderr = &ob, &eb
+		err := cmd.Run()
+		var cr struct {
+			Bad   []sessBad `json:"bad"`
+			Pairs int       `json:"pairs"`
+			Evals int       `json:"evals"`
+		}
+		if err != nil || json.Unmarshal(ob.Bytes(), &cr) != nil {
+			st := eb.String()
+			if len(st) > 2500 {
+				st = st[:1200] + "\n...\n" + st[len(st)-1200:]
+			}
+			addBad(sessBad{Kind: "crash", Det: fmt.Sprintf("types with equal hashes: %v\n%s", err, st), Sig: "hash_collision|crash"})
+		}
+		for _, b := range cr.Bad {
+			addBad(b)
+		}
+		S.Collide = cr.Pairs
+		S.Evals += cr.Evals
+	}
 	S.WallS = time.Since(t0).Seconds()
 	b, _ := json.MarshalIndent(S, "", " ")
 	if *out != "" {
@@ -452,3 +479,120 @@ func init() {
 	subcmds["session"] = sessionMain
 	subcmds["sessionrun"] = sessionRun
 }
+
+// ---- types whose 32-bit type hash is equal (spec/Cache.tla: ServedOwn; variant "HashOnly") ----
+// reflect.StructOf hashes a struct type with FNV-1 over "struct {" and, per field, the name and the field type's hash:
+// two one-field structs whose names leave the running hash in the same state are distinct types with equal hashes.
+
+func sessFnv1(x uint32, s string) uint32 {
+	for i := 0; i < len(s); i++ {
+		x = x*16777619 ^ uint32(s[i])
+	}
+	return x
+}
+
+func sessTypeHash(t reflect.Type) uint32 {
+	p := (*[2]unsafe.Pointer)(unsafe.Pointer(&t))[1]
+	return *(*uint32)(unsafe.Pointer(uintptr(p) + 2*unsafe.Sizeof(uintptr(0))))
+}
+
+func sessCollidingNames(seed uint64) (string, string) {
+	h0 := sessFnv1(0, "struct {")
+	seen := make(map[uint32]string, 1<<18)
+	const letters = "abcdefghijklmnopqrstuvwxyz"
+	x := seed*0x9E3779B97F4A7C15 + 1
+	buf := []byte("Fxxxxxxxx")
+	for n := 0; n < 4000000; n++ {
+		for i := 1; i < len(buf); i++ {
+			x ^= x << 13
+			x ^= x >> 7
+			x ^= x << 17
+			buf[i] = letters[x%26]
+		}
+		name := string(buf)
+		h := sessFnv1(h0, name)
+		if prev, ok := seen[h]; ok && prev != name {
+			return prev, name
+		}
+		seen[h] = name
+	}
+	return "", ""
+}
+
+// sessCollide: for several colliding pairs, both orders and every first-use route, each type must be served as if alone
+// (reference: encoding/json).  Returns the disagreements and the number of pairs whose hashes really are equal.
+func sessCollide(seed int64) (bad []sessBad, pairs int, evals int) {
+	add := func(kind, det string) {
+		bad = append(bad, sessBad{Kind: kind, Det: det, Sig: "hash_collision|" + kind})
+	}
+	for k := 0; k < 6; k++ {
+		na, nb := sessCollidingNames(uint64(seed)*16 + uint64(k) + 1)
+		if na == "" {
+			continue
+		}
+		mk := func(name string, ft reflect.Type) reflect.Type {
+			return reflect.StructOf([]reflect.StructField{{Name: name, Type: ft}})
+		}
+		ft := []reflect.Type{reflect.TypeOf(int(0)), reflect.TypeOf(""), reflect.TypeOf(int(0))}[k%3]
+		tA, tB := mk(na, ft), mk(nb, ft)
+		if tA == tB || sessTypeHash(tA) != sessTypeHash(tB) {
+			continue
+		}
+		pairs++
+		order := []reflect.Type{tA, tB}
+		names := map[reflect.Type]string{tA: na, tB: nb}
+		if k%2 == 1 {
+			order = []reflect.Type{tB, tA}
+		}
+		if k >= 4 {
+			sonic.Pretouch(order[0])
+		}
+		// derived types collide as well: slices and pointers of the two
+		for round := 0; round < 2; round++ {
+			for i, t := range order {
+				v := reflect.New(t).Elem()
+				var doc string
+				if ft.Kind() == reflect.String {
+					v.Field(0).SetString(fmt.Sprint("s", i))
+					doc = fmt.Sprintf(`{"%s":"d%d"}`, names[t], i)
+				} else {
+					v.Field(0).SetInt(int64(i + 1))
+					doc = fmt.Sprintf(`{"%s":%d}`, names[t], 7+i)
+				}
+				var val interface{} = v.Interface()
+				if round == 1 {
+					sl := reflect.MakeSlice(reflect.SliceOf(t), 1, 1)
+					sl.Index(0).Set(v)
+					val = sl.Interface()
+					doc = "[" + doc + "]"
+				}
+				evals++
+				got, gerr := sonic.ConfigStd.Marshal(val)
+				want, werr := json.Marshal(val)
+				if (gerr != nil) != (werr != nil) || string(got) != string(want) {
+					add("marshal", fmt.Sprintf("types %v and %v have the hash %#x; Marshal(%v) = %s, encoding/json %s", tA, tB, sessTypeHash(tA), reflect.TypeOf(val), got, want))
+				}
+				pg, pw := reflect.New(reflect.TypeOf(val)), reflect.New(reflect.TypeOf(val))
+				gerr = sonic.ConfigStd.Unmarshal([]byte(doc), pg.Interface())
+				werr = json.Unmarshal([]byte(doc), pw.Interface())
+				if (gerr != nil) != (werr != nil) || !reflect.DeepEqual(pg.Elem().Interface(), pw.Elem().Interface()) {
+					add("unmarshal", fmt.Sprintf("types %v and %v have the hash %#x; Unmarshal(%s) into %v = %+v (%v), encoding/json %+v", tA, tB, sessTypeHash(tA), doc, reflect.TypeOf(val), pg.Elem().Interface(), gerr, pw.Elem().Interface()))
+				}
+			}
+		}
+	}
+	return
+}
+
+func sessionCollideRun(args []string) int {
+	seed := int64(1)
+	if len(args) > 0 {
+		fmt.Sscan(args[0], &seed)
+	}
+	bad, pairs, evals := sessCollide(seed)
+	b, _ := json.Marshal(map[string]interface{}{"bad": bad, "pairs": pairs, "evals": evals})
+	os.Stdout.Write(b)
+	return 0
+}
+
+func init() { subcmds["sessioncollide"] = sessionCollideRun }
